@@ -326,6 +326,19 @@ def run(ctx):
                 ctx.hit("event:formula reloaded into the same term")
             except Exception:
                 pass
+            # O: the engine is edited after the term was evaluated - a variable replaced by a new object of the same name holding
+            # another value: the formula reads the engine's variables as they are now
+            if fn.engine is not None and i % 3 == 0:
+                try:
+                    old = fn.engine.input_variables[0]
+                    fresh_var = fl.InputVariable(old.name)
+                    fresh_var.value = rnd.choice([0.75, -2.0, 3.5])
+                    fn.engine.input_variables[0] = fresh_var
+                    mon.own = {}
+                    fn.membership(val())
+                    ctx.hit("event:engine variable replaced after an evaluation")
+                except Exception:
+                    pass
             mon.expected.pop(text2, None)
             mon.expected.pop(text, None)
             if i % 6 == 0:
@@ -345,9 +358,49 @@ def run(ctx):
                     mon.ill_formed.discard(bad)
             if i < 4:
                 ctx.sample("formula", {"text": text, "postfix": fn.root.postfix() if fn.root else None, "variables": variables})
+        # two terms built from one dictionary of variables, and a caller that goes on using its dictionary: each term has its own
+        for i, rnd in ctx.cases("shared variables", ctx.scale(40, 1000)):
+            shared = {"k": rnd.choice([0.5, 2.0, -1.25]), "m": 1.5}
+            f1 = fl.Function("f1", "k * 2.0 + m", variables=shared, load=True)
+            f2 = fl.Function("f2", "k + x", variables=shared, load=True)
+            want = dict(shared)
+            what = rnd.choice(["caller edits its dictionary", "one term is retuned", "one term is unloaded"])
+            if what == "caller edits its dictionary":
+                shared["k"] = 99.0
+            elif what == "one term is retuned":
+                f1.variables["k"] = 99.0
+            else:
+                f1.unload()
+            mon.own = {id(f2): want}
+            mon.expected["k + x"] = ("+", ("var", "k"), ("var", "x"))
+            try:
+                f2.membership(rnd.choice([0.25, 1.0, np.array([0.5, 2.0])]))
+            except Exception:
+                pass  # judged by the monitor
+            mon.own = {}
+            mon.expected.pop("k + x", None)
+            ctx.hit("event:two terms built from one dictionary of variables")
+        # variable names in other alphabets (a formula is text: identifiers are whatever the engine's variables are called)
+        for i, rnd in ctx.cases("names", ctx.scale(40, 1000)):
+            name, own = rnd.choice([("θ", "κ"), ("Δe", "ω_1"), ("ángulo", "k"), ("température", "gain2"), ("in_0", "Ω")])
+            engine = fl.Engine("e", input_variables=[fl.InputVariable(name)], output_variables=[fl.OutputVariable("out0")])
+            a, b = rnd.choice([0.5, 2.0, -1.25]), rnd.choice([0.25, 3.0])
+            engine.input_variables[0].value = a
+            text = rnd.choice([f"{name} * 2.0 + {own}", f"{own} ^ 2.0 - {name}", f"max({name}, {own}) / 2.0"])
+            want = {f"{name} * 2.0 + {own}": a * 2.0 + b, f"{own} ^ 2.0 - {name}": b**2.0 - a, f"max({name}, {own}) / 2.0": max(a, b) / 2.0}[text]
+            ctx.evaluated()
+            try:
+                fn = fl.Function("f", text, engine, variables={own: b}, load=True) if i % 2 else fl.Function.create("f", text, engine)
+                fn.variables[own] = b
+                got = float(np.asarray(fn.membership(0.0)))
+                ctx.hit("event:formula over names in other alphabets evaluated")
+                if not close(got, want):
+                    ctx.violation("value differs from the formula read with the documented operator table", {"formula": text, "variables": {name: a, own: b}}, want, got)
+            except Exception as ex:
+                ctx.violation(f"a well-formed formula is rejected ({type(ex).__name__})", {"formula": text}, "loaded", repr(ex)[:200])
         probe.report(ctx)
         reach.report(ctx)
-    ctx.require("hook:Function.load", "hook:Function.membership", "hook:Function.evaluate", "compare:membership:scalar (generator tree)", "compare:membership:array (generator tree)", "compare:evaluate:scalar (generator tree)", "compare:rpn of the loaded tree's postfix", "ill-formed:missing operand", "ill-formed:wrong arity", "ill-formed:unbalanced parenthesis", "name clash refused", "event:term variables changed between calls", "event:formula reloaded into the same term", "route:4", "route:5", "route:6")
+    ctx.require("hook:Function.load", "hook:Function.membership", "hook:Function.evaluate", "compare:membership:scalar (generator tree)", "compare:membership:array (generator tree)", "compare:evaluate:scalar (generator tree)", "compare:rpn of the loaded tree's postfix", "ill-formed:missing operand", "ill-formed:wrong arity", "ill-formed:unbalanced parenthesis", "name clash refused", "event:term variables changed between calls", "event:formula reloaded into the same term", "route:4", "route:5", "route:6", "event:engine variable replaced after an evaluation", "event:two terms built from one dictionary of variables", "event:formula over names in other alphabets evaluated")
     if ctx.nshards == 1:
         for k in list(F.OPERATORS) + list(F.FUNCTIONS):
             ctx.require(f"element:{k}")
